@@ -85,7 +85,7 @@ def apply_variant(db: ProgramDB, v: Variant) -> Optional[str]:
 
 
 def _run_one(args):
-    repo, spec_id, v = args
+    repo, spec_id, v, baseline = args
     from .props import load_all
     spec = load_all()[spec_id]
     db = ProgramDB(repo=repo)
@@ -101,7 +101,8 @@ def _run_one(args):
         instances = run_rules(db2, spec)
     except Exception as e:  # pragma: no cover
         return (v.name, v.kind, "error", f"{type(e).__name__}: {e}", [])
-    viol = [i for i in instances if i.verdict == VIOLATION]
+    # only what the edit ADDS counts: violations of the unmodified tree (the recorded known findings) are not the variant's
+    viol = [i for i in instances if i.verdict == VIOLATION and (i.rule, i.construct) not in baseline]
     und = [i for i in instances if i.verdict == UNDECIDED]
     fired = sorted({i.rule for i in viol})
     first = [f"{i.rule}:{i.construct}" for i in viol[:3]]
@@ -123,7 +124,8 @@ def run_sensitivity(db: ProgramDB, spec: PropertySpec, seed: int) -> dict:
     variants: List[Variant] = list(spec.sensitivity())
     rnd = random.Random(seed)
     rnd.shuffle(variants)
-    jobs = [(db.repo, spec.id, v) for v in variants]
+    baseline = frozenset((i.rule, i.construct) for i in run_rules(db, spec) if i.verdict == VIOLATION)
+    jobs = [(db.repo, spec.id, v, baseline) for v in variants]
     workers = min(16, max(1, len(jobs)))
     results = []
     if len(jobs) <= 2:
